@@ -285,6 +285,37 @@ def exec_case(ctx, r):
             pass
         except Exception as ex:
             ctx.violation(sub, "exception", f"refit on the edited object raised {type(ex).__name__}: {ex}", r)
+    # -- two live objects of the same class fitted to different data and used alternately --------
+    # (a value must come from the object's own X[s:e]: nothing may be shared between instances)
+    if ok_pairs:
+        try:
+            other = build(S(kind, param=r["param"]))
+            Xo = X[::-1].copy() * 1.5 + 0.25
+            other.fit(Xo)
+            cost.fit(X)  # `cost` was fitted first, `other` second; now use them in turn
+            tol_o = M.DataTol(Xo)
+            sel = rng.choice(len(ok_pairs), size=min(len(ok_pairs), 8), replace=False)
+            for i in sel:
+                s_, e_ = ok_pairs[int(i)]
+                one = np.array([[s_, e_]], dtype=np.int64)
+                va = cost.evaluate(one)[0]
+                vb = other.evaluate(one)[0]
+                va2 = cost.evaluate(one)[0]
+                ctx.stat("interleaved_rows")
+                for who, v, XX, tt in (("first", va, X, tol), ("second", vb, Xo, tol_o), ("first again", va2, X, tol)):
+                    lo, hi, status = M.cost_interval(kind, param, XX, tt, s_, e_)
+                    if status == "ok" and not (np.all(v >= lo) and np.all(v <= hi)):
+                        ctx.violation(sub, "shared-between-instances", f"{short(S(kind, param=r['param']))} "
+                                      f"[{s_},{e_}): two objects fitted to different data and used in turn: the "
+                                      f"{who} object returned {np.asarray(v).tolist()} outside "
+                                      f"[{np.asarray(lo).tolist()}, {np.asarray(hi).tolist()}]", r)
+                        raise StopIteration
+        except StopIteration:
+            pass
+        except RuntimeError:
+            pass
+        except Exception as ex:
+            ctx.violation(sub, "exception", f"interleaved use of two objects raised {type(ex).__name__}: {ex}", r)
     if interior or p > 1:
         ctx.nt(digest([r["kind"], r["param"], r["X"]]))
     ctx.sample({"cost": short(S(kind, param=r["param"])), "n": n, "p": p,
